@@ -110,19 +110,26 @@ def run_X1(chk):
     sym = [n for n in stores if _sub_text(n.targets[0]) == f"{Hn}[{j}-1,{j}]"]
     chk.verdict("X1", (f, sym[0] if sym else loop), sym[0] if sym else f"{Hn}[{j}-1,{j}]", True if sym and _sub_text(sym[0].value) == f"{Hn}[{j},{j}-1]" else False,
                 "expand_krylov_space (Lanczos): the super-diagonal must reuse the norm stored at H[j, j-1] in the previous step")
-    # normalisation and breakdown
+    # normalisation and breakdown.  `H[j+1, j]`, and a temporary holding the same value, are interchangeable: everything is compared
+    # after replacing both by the expression that was recorded
+    inl = A.Inliner(fn)
     nst = [n for n in loop.body if isinstance(n, ast.Assign) and _sub_text(n.targets[0]) == f"{Hn}[{j}+1,{j}]"]
-    ok = bool(nst) and isinstance(nst[0].value, ast.Call) and A.callee_attr(nst[0].value) == "norm" and A.text(nst[0].value.func.value) == w
+    rec = inl.expand(nst[0].value) if nst else None
+    ok = rec is not None and isinstance(rec, ast.Call) and A.callee_attr(rec) == "norm" and A.text(rec.func.value) == w
     chk.verdict("X1", (f, nst[0] if nst else loop), nst[0] if nst else "H[j+1, j]", True if ok else False,
                 f"expand_krylov_space: H[{j}+1, {j}] is not the norm of the orthogonalised vector")
+
+    def is_recorded_norm(e):
+        return rec is not None and (_sub_text(e) == f"{Hn}[{j}+1,{j}]" or A.text(inl.expand(e)) == A.text(rec))
     ap = apps[0]
     e = ap.args[0]
-    ok = isinstance(e, ast.BinOp) and isinstance(e.op, ast.Div) and A.text(e.left) == w and _sub_text(e.right) == f"{Hn}[{j}+1,{j}]"
+    ok = isinstance(e, ast.BinOp) and isinstance(e.op, ast.Div) and A.text(e.left) == w and is_recorded_norm(e.right)
     chk.verdict("X1", (f, ap), ap, True if ok else False, "expand_krylov_space: the new basis vector is not w divided by the norm recorded in H[j+1, j]")
-    brk = [n for n in loop.body if isinstance(n, ast.If) and f"{Hn}[{j}+1,{j}]<" in _sub_text(n.test)]
+    brk = [n for n in loop.body if isinstance(n, ast.If) and isinstance(n.test, ast.Compare) and len(n.test.ops) == 1
+           and isinstance(n.test.ops[0], (ast.Lt, ast.LtE)) and is_recorded_norm(n.test.left)]
     ok = bool(brk) and any(isinstance(x, ast.Break) for x in brk[0].body) and \
         any(isinstance(x, ast.Expr) and isinstance(x.value, ast.Call) and A.callee_attr(x.value) == "pop" for x in brk[0].body) and \
-        brk[0].lineno < par[ap].lineno and any(isinstance(x, ast.Assign) and A.neg_const(x.value) is None and A.text(x.value) == "True" for x in brk[0].body)
+        brk[0].lineno < par[ap].lineno and any(isinstance(x, ast.Assign) and isinstance(x.value, ast.Constant) and x.value.value is True for x in brk[0].body)
     chk.verdict("X1", (f, brk[0] if brk else loop), brk[0].test if brk else "breakdown test", True if ok else False,
                 "expand_krylov_space: on breakdown (norm below tol) the loop must flag `happy`, remove H[j+1, j] and leave before dividing by the tiny norm")
 
